@@ -51,9 +51,10 @@ class Typedef(object):
 
 
 class Member(object):
-    def __init__(self, name, type_, kind=PLAIN, size=None, sizer=None, size_text=None):
+    def __init__(self, name, type_, kind=PLAIN, size=None, sizer=None, size_text=None, isar_dims=None):
         self.name, self.type, self.kind = name, type_, kind
         self.size, self.sizer, self.size_text = size, sizer, size_text
+        self.isar_dims = isar_dims      # (size text, size2 text): isar's two-dimensional spelling of size
 
     def to_json(self):
         d = {'name': self.name, 'type': self.type, 'kind': self.kind}
@@ -63,6 +64,8 @@ class Member(object):
             d['sizer'] = self.sizer
         if self.size_text:
             d['size_text'] = self.size_text
+        if self.isar_dims:
+            d['isar_dims'] = list(self.isar_dims)
         return d
 
 
@@ -179,7 +182,7 @@ class Schema(object):
                 s.add(Typedef(d['name'], d['target']))
             elif k == 'struct':
                 s.add(Struct(d['name'], [Member(m['name'], m['type'], m['kind'], m.get('size'), m.get('sizer'),
-                                                m.get('size_text')) for m in d['members']]))
+                                                m.get('size_text'), m.get('isar_dims')) for m in d['members']]))
             else:
                 s.add(Union(d['name'], [tuple(a) for a in d['arms']]))
         return s
@@ -665,6 +668,8 @@ def render_def_isar(d, patch, as_message=False):
         if m.type == 'byte':
             patch.append('%s type %s byte' % (d.name, m.name))
         sz = _xml_escape(m.size_text if m.size_text else m.size)
+        if m.isar_dims:
+            sz = '%s" size2="%s' % (_xml_escape(m.isar_dims[0]), _xml_escape(m.isar_dims[1]))
         if m.kind == PLAIN:
             out.append('<member name="%s" type="%s"/>' % (m.name, t))
         elif m.kind == OPTIONAL:
